@@ -692,8 +692,8 @@ example : OnlyTokenizerErrors [.chunk [.cb (.startElement ['a'] [])], .chunk [.c
 /-- a URI that begins with a brace and a local part that contains the separator (`xml_qname_of_expat_name`) -/
 example : mkQName (['{','{','u'] ++ '}' :: ['a','}','b']) = ⟨['u'], ['a','}','b']⟩ := by decide
 
-/-- in the real environment: `</Aς>` closes the `aσ` … no: `'aΣ'.lower()` is `aς`, `'Aσ'.lower()` is `aσ` — they differ,
-    everything is closed; `</B>` closes `b` and what is open inside it -/
+/-- the end-tag rule in the real environment (`str.lower` from the generated table): `</B>` closes `b` and what is
+    open inside it -/
 example : htmlStep realEnv [['i'], ['b'], ['p']] (.endtag ['B']) = .ok ([['p']], [.end_ ⟨[], ['i']⟩, .end_ ⟨[], ['b']⟩]) := by
   decide
 
